@@ -300,6 +300,9 @@ def container_delegation(ctx):
                 callnodes = {id(c) for c, a in calls}
                 for r in [x for x in body_walk(f.node) if isinstance(x, ast.Return) and x.value is not None]:
                     exprs = [r.value] + (origins(r.value, f.node) if isinstance(r.value, ast.Name) else [])
+                    if not isinstance(r.value, ast.Name):
+                        # `return list(converted)`: what the names inside the returned expression were bound to
+                        exprs += [o for x in ast.walk(r.value) if isinstance(x, ast.Name) and isinstance(x.ctx, ast.Load) for o in origins(x, f.node)]
                     through = any(id(x) in callnodes for e in exprs for x in ast.walk(e))
                     if not through and isinstance(r.value, ast.Name):
                         # a container built step by step: every element put into it went through the member call
